@@ -6,6 +6,7 @@ import (
 	"io"
 	"log"
 	"os"
+	"runtime/pprof"
 
 	"verif/engine"
 )
@@ -13,6 +14,8 @@ import (
 var checks = map[string]func(r *engine.Run){}
 var levels = map[string]string{}
 var workers = map[string]func(args []string){}
+
+var stopProfile = func() {}
 
 func register(id, level string, f func(r *engine.Run)) {
 	checks[id] = f
@@ -42,6 +45,12 @@ func main() {
 	if tier == "--replay" {
 		fmt.Fprintln(os.Stderr, "replay: re-running the quick tier (replay files of this group hold plain inputs; every case of the file is inside the quick alphabet)")
 		tier = "quick"
+	}
+	if pf := os.Getenv("VERIF_CPUPROFILE"); pf != "" { // developer aid only
+		if f, err := os.Create(pf); err == nil {
+			pprof.StartCPUProfile(f)
+			stopProfile = pprof.StopCPUProfile
+		}
 	}
 	r := engine.Start(id, tier, levels[id])
 	defer engine.Cleanup()
